@@ -268,6 +268,43 @@ theorem C01_generated_id_never_exists (cfg : Cfg M K R) (h : EqRefl cfg.ops) (s 
   | created id1 calls t1 new _ _ _ _ _ =>
     exfalso; revert ha; unfold Spec.commit; cases wr.writeTime <;> simp
 
+/-- Fix 929e9c0 is conservative: `Update` / `Add` answer, emit and store exactly what they did before it
+(`Coll.updateLegacy`: emptiness tested after interception) for every call that names an id, for every call
+that does not ask for a generated id, and for every call at all on a collection whose interceptor leaves the
+empty id empty (none, lower-casing, `first`, `dup`); the only calls that changed are `("", WithGenIDIfAbsent)`
+behind an interceptor that gives the empty id a key of its own. -/
+theorem C01_genid_fix_conservative (cfg : Cfg M K R) (s : CState M R) (id : String) (msg : M) (wr : WriteReq M K)
+    (hsame : icptId cfg "" = "" ∨ id ≠ "" ∨ wr.genEmptyID = false) :
+    Coll.update cfg s id msg wr = Coll.updateLegacy cfg s id msg wr := by
+  have hk : updKey cfg wr id = icptId cfg id := by
+    unfold updKey
+    by_cases hid : id = ""
+    · rcases hsame with h0 | hne | hg
+      · simp [hid, h0]
+      · exact absurd hid hne
+      · simp [hg]
+    · simp [hid]
+  unfold Coll.update Coll.updateLegacy
+  rw [hk]
+
+/-- What the fix repaired, on the code as it was (`Coll.updateLegacy`) behind the prefixing interceptor
+`dash` ("" -> "-"): `Add("", WithGenIDIfAbsent(), WithIDCallback)` is stored under "-", no id is generated and
+the callback hears nothing; the second such Add answers AlreadyExists; with the fix (`Coll.add`) both
+succeed under two fresh generated ids, each reported once. -/
+theorem C01_genid_legacy_prefix_never_generates :
+    let cfg : Cfg Msg Mask (List Nat) := { ops := flatOps, gen := flatGen, icpt := some dashStr }
+    let wr : WriteReq Msg Mask := { genEmptyID := true, idCb := true, expectAbsent := true, createIfAbsent := true }
+    let m : Msg := { a := 1, s := "", c := none }
+    let l1 := Coll.updateLegacy cfg (Coll.init cfg [] []) "" m wr
+    let l2 := Coll.updateLegacy cfg l1.2 "" m wr
+    let f1 := Coll.add cfg (Coll.init cfg [] []) "" m { genEmptyID := true, idCb := true }
+    let f2 := Coll.add cfg f1.2 "" m { genEmptyID := true, idCb := true }
+    (l1.1.err = none ∧ l1.1.idCalls = [] ∧ l1.2.items.map (·.1) = ["-"] ∧
+      l2.1.err = some .alreadyExists ∧ l2.1.idCalls = []) ∧
+    (f1.1.err = none ∧ f1.1.idCalls = ["-AAAAAAAA"] ∧ f2.1.err = none ∧ f2.1.idCalls = ["-AAAAAAAAAA"] ∧
+      f2.2.items.map (·.1) = ["-AAAAAAAA", "-AAAAAAAAAA"]) := by
+  decide
+
 /-- A sufficient condition on the id interceptor (none is an interceptor too: the identity):
 IDEMPOTENT (`icpt (icpt x) = icpt x`) and NON-EMPTINESS PRESERVING (`x ≠ "" → icpt x ≠ ""`).  Then a
 generated id is non-empty, was unused, is reported once, and is USABLE: `Get id'` returns the item just
